@@ -746,7 +746,9 @@ class Spec:
         want = None
         if name is not None:
             want = f.get("class", name)
-        if klass != want:
+        # class names are limited to CLASSLEN (63) bytes; the copy keeps 62 of a longer name - either cut is accepted
+        ok = klass == want or (want is not None and len(want) > 62 and klass in (want[:62], want[:63]))
+        if not ok:
             self.v("C11", "wrong_class", "%s got class %r, first matching rule %r gives %r" % (c.tag, klass, name, want))
         tu = getattr(c, "trusted_user", None)
         truthy = ("1", "true", "on", "enabled", "yes")
